@@ -1,5 +1,6 @@
 """C14 — Validator set given to CometBFT mirrors the application's and is never empty.
-spec/Validators.tla (post-Aspen individual storage and the pre-Aspen legacy set) checked by TLC over all blocks of
+spec/Validators.tla (post-Aspen individual storage, the pre-Aspen legacy set, and histories in which the Aspen
+upgrade activates at some block boundary and migrates the set) checked by TLC over all blocks of
 validator updates within the bounds; transition-covering behaviours are replayed as real blocks through
 finalize_block + commit, the harness folding the returned batches into its own CometBFT-style set."""
 import re
@@ -7,8 +8,10 @@ import re
 import vf
 
 PROP = "C14"
-CONFIGS = {"quick": [("MC_Validators_post_q.cfg", True), ("MC_Validators_pre_q.cfg", False)],
-           "thorough": [("MC_Validators_post_t.cfg", True), ("MC_Validators_pre_t.cfg", False)]}
+CONFIGS = {"quick": [("MC_Validators_post_q.cfg", True), ("MC_Validators_pre_q.cfg", False),
+                     ("MC_Validators_mixed_q.cfg", False)],
+           "thorough": [("MC_Validators_post_t.cfg", True), ("MC_Validators_pre_t.cfg", False),
+                        ("MC_Validators_mixed_t.cfg", False)]}
 ENTRY = "app::verif_harness::validators::validators_blocks"
 
 
@@ -39,21 +42,30 @@ def run(tier, seed):
                 last = max((i for i, t in enumerate(b) if t["a"]["op"] == "end_block"), default=-1)
                 if last < 0:
                     continue
-                behaviours.append({"post_aspen": post, "genesis": init["st"]["stored"], "cfg": cfg,
-                                   "steps": [{"a": t["a"], "t": t["t"], "dev": t["dev"]} for t in b[:last + 1]]})
+                steps = [{"a": t["a"], "t": t["t"], "dev": t["dev"], "post": t["s"]["post"]} for t in b[:last + 1]]
+                # a history that crosses the upgrade: Aspen activates at the height of its first post-format block
+                aspen_height = None
+                if not post and any(s["post"] for s in steps):
+                    aspen_height = 1 + sum(1 for s in steps[:next(i for i, s in enumerate(steps) if s["post"])]
+                                           if s["a"]["op"] == "end_block")
+                behaviours.append({"post_aspen": post, "aspen_height": aspen_height, "genesis": init["st"]["stored"],
+                                   "cfg": cfg, "steps": steps})
         cfgs.append({"cfg": cfg, "distinct": r.distinct, "generated": r.generated, "distinct_transitions": len(trans),
                      "wall_s": round(r.wall, 1)})
     # the same block may be covered many times; keep distinct behaviours
     seen = set()
     uniq = []
     for b in behaviours:
-        k = vf.canon([b["post_aspen"], b["genesis"], [s["a"] for s in b["steps"]]])
+        k = vf.canon([b["post_aspen"], b["aspen_height"], b["genesis"], [s["a"] for s in b["steps"]]])
         if k not in seen:
             seen.add(k)
             uniq.append(b)
     import random
     random.Random(seed).shuffle(uniq)
-    behaviours = uniq[:400 if tier == "quick" else 6000]
+    # keep the histories that cross the upgrade in the sample whatever the shuffle does
+    cross = [b for b in uniq if b["aspen_height"] is not None]
+    rest = [b for b in uniq if b["aspen_height"] is None]
+    behaviours = cross[:200 if tier == "quick" else 3000] + rest[:400 if tier == "quick" else 6000]
     results = vf.run_harness_sharded("astria-sequencer", ENTRY, behaviours, tag=f"c14-{tier}", shards=14,
                                      timeout=3000) if behaviours else []
     if len(results) != len(behaviours):
@@ -78,6 +90,7 @@ def run(tier, seed):
                 "each run as real blocks through finalize_block + commit; compared per block: returned update batch, stored "
                 "set / count, cleared per-block updates, and the harness's own CometBFT fold of the batches",
         "blocks_executed": blocks,
+        "behaviours_crossing_the_aspen_upgrade": sum(1 for b in behaviours if b["aspen_height"] is not None),
         "implementation_matched": matched,
         "exhaustive": False,
         "tlc_configs": cfgs,
